@@ -99,6 +99,16 @@ def run(ctx):
         if got != ref[j]:
             ctx.violation("scan-history-fresh-buffers", [tmpl[j]], "scan of a freshly created buffer after a history of dropped same-length buffers differs from the scan of the same content with no history")
             break
+    # after a large VOLUME of scanned data in this process (a budget / counter that is never reset), scans must still be the fresh scans
+    big = b"\x00" * (512 * 1024)
+    for _ in range(ctx.budget(10, 24)):
+        shared.scan(big)
+    probe_fresh = Multidecoder()
+    for i, d in enumerate(inputs[:8]):
+        ctx.evals += 1
+        if node_val(shared.scan(d)) != fresh[i] or node_val(probe_fresh.scan(d)) != fresh[i]:
+            ctx.violation("scan-history-volume", [d], "after several MiB of other scans in the same process (re-used and brand-new scanner alike) the scan differs from the one computed before")
+            break
     # threads sharing one scanner
     results = [[None] * len(inputs) for _ in range(8)]
 
